@@ -1274,3 +1274,48 @@ def render_file(rng, forms, eol, final_newline):
     if final_newline:
         text += eol
     return text
+
+
+# ------------------------------------------------------------------------------------------
+# C16: values of the readable subset, as expressions that build them
+# ------------------------------------------------------------------------------------------
+REAL_BITS = ["00000000", "80000000", "3f800000", "bf800000", "3fc00000", "3dcccccd", "3e99999a", "00000001", "00800000",
+             "007fffff", "7f7fffff", "ff7fffff", "4b800000", "4b7fffff", "4b800001", "5a0e1bca", "501502f9", "2edbe6ff",
+             "38d1b717", "38d1b718", "38d1b716", "5a0e1bc9", "5a0e1bcb", "461c4000", "47c35000", "49742400", "4cbebc20",
+             "3a83126f", "3c23d70a", "41200000", "42c80000", "447a0000", "3f000000", "3e800000", "40490fdb", "402df854"]
+
+
+def readable_value(rng, depth, defs):
+    """returns an expression; reals are bound to variables via DEFNUM lines collected in defs"""
+    k = rng.random()
+    if depth <= 0 or k < 0.35:
+        a = rng.random()
+        if a < 0.25:
+            return str(rng.choice([0, 1, -1, 42, -42, 2147483647, -2147483648, 1000000, rng.randint(-10 ** 9, 10 ** 9)]))
+        if a < 0.40:
+            n, d = rng.choice([1, -1, 3, -7, 22, 355, -2147483647]), rng.choice([2, 3, 7, 113, 2147483647])
+            return rng.choice(["%d/%d" % (n, d), "(/ %d %d)" % (n, -d), "(/ %d %d)" % (n, d)])
+        if a < 0.60:
+            bits = rng.choice(REAL_BITS) if rng.random() < 0.6 else "%08x" % rng.getrandbits(32)
+            e = int(bits, 16) >> 23 & 0xff
+            if e == 0xff:
+                bits = "3f800000"          # non-finite reals are outside the readable subset
+            name = "r%d" % len(defs)
+            defs.append((name, bits))
+            return name
+        if a < 0.72:
+            return rng.choice(["#t", "#f"])
+        if a < 0.82:
+            return "#\\" + rng.choice(list("azAZ09!?*+-/<=>_~") + ["x"])
+        return "'" + rng.choice(["a", "foo", "list->vector", "x1", "!", "<=?", "a.b", "+", "-", "...", "->x", "set!"])
+    if k < 0.7:
+        items = [readable_value(rng, depth - 1, defs) for _ in range(rng.randint(0, 6))]
+        if items and rng.random() < 0.3:
+            tail = readable_value(rng, depth - 1, defs)
+            expr = tail
+            for it in reversed(items):
+                expr = "(cons %s %s)" % (it, expr)
+            return expr
+        return "(list %s)" % " ".join(items)
+    items = [readable_value(rng, depth - 1, defs) for _ in range(rng.randint(0, 5))]
+    return "(vector %s)" % " ".join(items)
